@@ -24,7 +24,8 @@ ASSUMPTIONS = ['"in progress" is derived from the bus log: session open until it
                'the FD pools are read through private attributes; if absent the invariant is reported not-observed and the probe decides alone']
 MIN_OBS = {'history_steps': {'quick': 15000, 'thorough': 400000}, 'failed_transfers': {'quick': 4000, 'thorough': 100000},
            'probe_transfers_delivered': {'quick': 6000, 'thorough': 150000}, 'probe_refusals_checked': {'quick': 1200, 'thorough': 30000},
-           'pool_invariant_checks': {'quick': 150000, 'thorough': 4000000}, 'inbound_odd_sessions': {'quick': 500, 'thorough': 12000}}
+           'pool_invariant_checks': {'quick': 150000, 'thorough': 4000000}, 'inbound_odd_sessions': {'quick': 500, 'thorough': 12000},
+           'preempted_cases': {'quick': 250, 'thorough': 6000}, 'rx_preempted_cases': {'quick': 100, 'thorough': 2500}}
 MIN_OBS_UNLESS = {'pool_invariant_checks': 'pool_not_observed'}      # private pool names may be gone after a refactor
 
 S1, S2, PA, RA = 0x10, 0x11, 0x20, 0x30
@@ -276,8 +277,19 @@ def run_case(case):
             if event != 'call' or not frame.f_code.co_filename.startswith(jdir):
                 return None
             return local
+    # half of the pre-empted cases suspend the RECEIVE thread of S in its frame handlers instead (the job thread is made to run meanwhile)
+    rxp = preempt and random.Random(case['seed'] ^ 0x1234).random() < 0.5
+    skw = {}
+    if rxp:
+        from vt import preempt as PRE
+        sholder = []
+        skw = dict(rx_thread=True, rx_trace=PRE.random_tracer(sim, case['seed'] ^ 0xFEDCBA, p=0.004, holds=(0.0002, 0.001, 0.002), on=pre_on, counter=holds,
+                                                              holding=holding, kick=lambda h: sholder[0].ecu.add_timer(h / 2, lambda cookie: False)))
+    elif preempt:
         sim.trace_hook = tracer
-    S = W.stack('S', max_cmdt_packets=rng.choice([1, 2, 255]))
+    S = W.stack('S', max_cmdt_packets=rng.choice([1, 2, 255]), **skw)
+    if rxp:
+        sholder.append(S)
     sim.trace_hook = None
     P = W.stack('P', max_cmdt_packets=rng.choice([1, 3, 255]))
     if rng.random() < 0.3:
@@ -293,7 +305,7 @@ def run_case(case):
     inv_ok = install_pool_invariant(S, viol, inv_count, layer, holding) if fd else False
     W.run(0.01)
 
-    obs = dict(pool_not_observed=1 if (fd and not inv_ok) else 0, preempted_cases=1 if preempt else 0, history_steps=0, failed_transfers=0, probe_transfers_delivered=0, probe_refusals_checked=0, pool_invariant_checks=0,
+    obs = dict(pool_not_observed=1 if (fd and not inv_ok) else 0, preempted_cases=1 if preempt else 0, rx_preempted_cases=1 if rxp else 0, history_steps=0, failed_transfers=0, probe_transfers_delivered=0, probe_refusals_checked=0, pool_invariant_checks=0,
                inbound_odd_sessions=0, refused_during_history=0)
     steps = []
     sends = []       # dict(t, sa, da, mode, ret)
